@@ -34,7 +34,8 @@ def main(p):
     for cell in a['cells']:
         pat = cell['pattern']
         shp = respath.shape(pat)
-        srcname = {0: 'msg-field', 1: 'file-def', 2: 'child-type', 3: 'type-ref', 4: 'dep-file-def', 5: 'dep-msg-ref', 6: 'lro-response', 9: 'common'}[cell['source']]
+        srcname = {0: 'msg-field', 1: 'file-def', 2: 'child-type', 3: 'type-ref', 4: 'dep-file-def', 5: 'dep-msg-ref', 6: 'lro-response', 7: 'deep-ref',
+                   8: 'redeclared-common', 9: 'common'}[cell['source']]
         b = getattr(C, cell['helper'] + '_path', None)
         q = getattr(C, 'parse_' + cell['helper'] + '_path', None)
         if b is None or q is None:
